@@ -128,7 +128,10 @@ def generate(seed: int, tier: str = "quick") -> Dict[str, Any]:
                 break
         cfg["boosted"] = item
         if item in gen.FEATURES:
-            cfg["features"] = [item] + [f for f in cfg["features"] if f != item][:1]
+            # on its own and insistently, so that most threads of the workload really use it
+            cfg["features"] = [item]
+            cfg["bias"] = 0.9
+            cfg["deep_share"] = 0.0
         elif item == "host":
             cfg["host_share"] = 0.8
         else:
@@ -175,7 +178,10 @@ def generate(seed: int, tier: str = "quick") -> Dict[str, Any]:
         # shared-state function; resolved against the alone profiles in execute()
         pol["focus"] = f"rank:{rs.choice([0, 0, 1, 1, 2])}"
         pol["victim"] = rs.randrange(n)
-        pol["kfrac"] = rs.random()
+        # the five targeted schedules of a workload are spread evenly over the victim's lines
+        # inside the focus function (stratified, then seeded within the stratum)
+        j = (slot % GROUP) - 7
+        pol["kfrac"] = (j + rs.random()) / 5 if 0 <= j < 5 else rs.random()
     else:
         pol["q"] = rs.choice([1, 2, 3, 5, 10, 37, 200, 1000])
     trace_lark = tier == "thorough" and rs.random() < 0.05
